@@ -489,6 +489,7 @@ impl ForwardedStreamSink {
         );
         if remaining > 0 {
             state.remaining_chunk_size = Some(remaining);
+            self.state = SinkState::TransferringBodyChunked(state);
         } else {
             self.state = SinkState::WaitingChunkSuffix(SinkWaitingChunkSuffix {
                 buffer: BytesMut::with_capacity(ENCODED_CHUNK_SUFFIX.len()),
